@@ -1,5 +1,6 @@
 """C08 - password gate: nothing but AUTH runs before the exact password was presented."""
 import json
+import os
 import connlib
 import vlib
 
@@ -22,6 +23,20 @@ def run(ctx):
     accepted, scs, lines = connlib.run_scenarios(ctx, scenarios, "c08")
     groups = connlib.report(ctx, accepted, scs, lines, None)
     connlib.violations_from_groups(ctx, groups, lines, lambda sc: scenarios[sc // 10000 - 1])
+    # the same gate on connections that arrive through the TLS port: a verified client certificate does not replace AUTH
+    if not ctx.replay:
+        tsc = [{"rule": r, "pass": True, "cred": c, "fault": "none", "pos": "between"} for r in (False, True) for c in ("ok", "wrongname")]
+        tpath = os.path.join(ctx.work, "c08_tls_scen.jsonl")
+        vlib.write_jsonl(tpath, tsc)
+        ttrace = os.path.join(ctx.work, "c08_tls.ndjson")
+        ctx.harness(["tlsgate", "--scenarios", tpath, "--out", ttrace], timeout=600)
+        tacc, ts, tl = ctx.validate(ttrace, "TraceTLS", stateful=True, shards=1, constants="CONSTANT Diagnose = FALSE\n")
+        for sc in ts:
+            if sc not in tacc:
+                idx, ev = connlib.diagnose(ctx, tl[sc], "TraceTLS")
+                ctx.violation("TLS port with a password configured: %s" % json.dumps({k: v for k, v in ev.items() if k not in ("sc", "end")})[:300],
+                              {"scenario": tsc[sc - 1], "event": ev})
+        ctx.stage("tls-port")
     shapes = set()
     gated = 0
     for sc in scs:
